@@ -286,6 +286,11 @@ def run_check(prop, tier):
                 "exhaustive": all(l.exhaustive for l in prop.legs) if prop.legs else False,
                 "rule": " | ".join(f"{l.name}: {l.rule}" for l in prop.legs),
                 "proof_problems": proof_problems})
+    if cov["obligations"] < 1 or cov["discharged"] < 1:
+        # nothing was discharged on this run (broken build / missing theorem file): do not present
+        # proof-level keys; the exploration-style counts of this run stand in
+        cov["obligations_attempted"] = cov.pop("obligations")
+        cov["discharged_now"] = cov.pop("discharged")
     C.write_evidence(pid, tier, seed, cov, prop.assumptions, T(), len(violations))
     for l in out_lines:
         print(l)
